@@ -63,6 +63,10 @@ def ad(prop, rule):
                 components=dict(real=REAL_A, stub=STUB_Q + ["stub nsqd and nsqlookupd upstreams (HTTP handlers in the harness that serve generated cluster data, record every request and fail in generated ways)"]),
                 assumptions=ASSUME, crash_property="C18")
 PLANS["C17"] = ad("C17", "each evaluation is one seeded run of the admin world: real nsqadmin with a drawn admin list / ACL header / config CIDR in front of recording stub upstreams; every mutating route with every identity variant (absent, empty, non-admin, admin, case/whitespace/prefix look-alikes, right user in the wrong header, list of users) and /config from source addresses inside/outside/at the edge of the CIDR (v4 and v6); oracles: not authorised => 403 and ZERO upstream requests in that step, authorised => carried out on every relevant lookupd and producer (stub request log), read views available; distinct = distinct schedule fingerprint")
+PLANS["C17"]["stages"][0]["share"] = 0.8
+PLANS["C17"]["stages"].append(dict(bin="nsqadmin", world="adminapp", prop="C17", share=0.2))
+PLANS["C17"]["rule"] += "; a fifth of the budget runs the application world: the real program.Start() of apps/nsqadmin (flag set, TOML config file, options.Resolve, nsqadmin.New, Main) is configured the way an operator does it - admin users, ACL header and config CIDR given as command-line flags, as config-file keys, or both with the flags winning - in front of a recording stub nsqlookupd, and the same gate oracle applies (403 and zero upstream requests unless the configured identity is presented; /config only from inside the configured CIDR)"
+PLANS["C17"]["components"] = dict(real=REAL_A + ["apps/nsqadmin: program.Start (nsqadminFlagSet, toml.DecodeFile, config.Validate, options.Resolve)"], stub=PLANS["C17"]["components"]["stub"])
 PLANS["C18"] = ad("C18", "each evaluation is one seeded run of the admin world: 0-3 stub lookupds and 1-4 stub nsqds with generated topics/channels/clients/counters (zero, huge, optional fields missing, nodes unknown to some lookupds, tombstones), lookupd and direct mode; any subset of upstreams failing by refuse / blackhole / reset mid-body / HTTP 500 / malformed JSON / inconsistent arrays / empty body; oracle: /api/topics, /api/topics/:t, /api/topics/:t/:c, /api/nodes, /api/counter equal a reference union/sum over the healthy upstreams, partial failure => 200 with a warning, total failure => 502, nsqadmin answers /ping after every step; distinct = distinct schedule fingerprint")
 
 PLANS["C11"] = dict(stages=[dict(bin="world", world="policy", prop="C11", share=1.0)], quick_s=30, thorough_s=600, level="exploration",
@@ -96,10 +100,10 @@ PLANS["C20"] = dict(stages=[dict(bin="to_nsq", world="tonsq", prop="C20", share=
     components=dict(real=REAL_APP + ["apps/to_nsq, apps/nsq_to_nsq, apps/nsq_to_http: the real main() (flag parsing on a fresh FlagSet bound to the package's flag variables, option validation, producers/consumers, responder, signal handling)", "github.com/bitly/go-hostpool, timer_metrics"], stub=STUB_Q + ["stub destination nsqds (minimal V2 server in the harness)", "stub HTTP endpoints (net/http handlers in the harness)", "simos.Stdin reader with short reads"]),
     assumptions=ASSUME, crash_property="C20")
 
-WORLD_BIN = {"tonsq": "to_nsq", "nsq2nsq": "nsq_to_nsq", "nsq2http": "nsq_to_http", "tofile": "nsq_to_file", "policy": "world", "queue": "world", "lookupd": "world", "proto": "world", "meta": "world", "cluster": "world", "admin": "world"}
+WORLD_BIN = {"adminapp": "nsqadmin", "tonsq": "to_nsq", "nsq2nsq": "nsq_to_nsq", "nsq2http": "nsq_to_http", "tofile": "nsq_to_file", "policy": "world", "queue": "world", "lookupd": "world", "proto": "world", "meta": "world", "cluster": "world", "admin": "world"}
 SELFTEST_WORLDS = [("queue", "ALL"), ("queue", "C08"), ("queue", "C05"), ("queue", "C12"), ("lookupd", "C14"), ("lookupd", "C15"), ("proto", "C09"), ("proto", "C10"),
-                   ("policy", "C11"), ("meta", "C06"), ("cluster", "C16"), ("admin", "C17"), ("admin", "C18"), ("tofile", "C19"), ("tonsq", "C20"), ("nsq2nsq", "C20"), ("nsq2http", "C20")]
-ALL_TARGETS = ["world", "world_race", "nsq_to_file", "to_nsq", "nsq_to_nsq", "nsq_to_http"]
+                   ("policy", "C11"), ("meta", "C06"), ("cluster", "C16"), ("admin", "C17"), ("admin", "C18"), ("adminapp", "C17"), ("tofile", "C19"), ("tonsq", "C20"), ("nsq2nsq", "C20"), ("nsq2http", "C20")]
+ALL_TARGETS = ["world", "world_race", "nsq_to_file", "to_nsq", "nsq_to_nsq", "nsq_to_http", "nsqadmin"]
 
 SIMNOTE = ("assumes the trusted base of DESIGN.md 6: Go 1.26.8 synctest + five runtime patches, the two-rule AST rewriter, simnet/simos fidelity, "
            "one-P atomicity between synchronisation operations; oracles see the wire only (frames, HTTP, /stats, data directory)")
